@@ -71,6 +71,14 @@ Example ex_commit :
   cast g = [(2, 1); (1, 1); (1, 0)] /\ map store (ps g) = [[(0, 2)]; [(1, 3)]].
 Proof. vm_compute. repeat split. Qed.
 
+(* a stray Yes from a non-participant shard does not stand in for the participant whose prepare was lost *)
+Example ex_stray :
+  let g := grun (start 5000 [([(0, 1)], 30000); ([], 30000)])
+             [EBegin [0; 1] [(0, [Put 0 2]); (1, [Put 1 3])] false; EDeliver 0 false; EDrop 0; EDeliver 0 false;
+              EStray 1 2 true; ECommit 1] in
+  dec g = [] /\ cast g = [(1, 0)] /\ option_map c_phase (aget (pending (co g)) 1) = Some 0.
+Proof. vm_compute. repeat split. Qed.
+
 (* the guard of C03_abort_leaves_data is satisfiable with a prepared, non-dirty transaction *)
 Example ex_clean_abort :
   let g := grun (start 5000 [([(0, 1)], 30000)]) [EBegin [0] [(0, [Put 0 2])] false; EDeliver 0 false] in
